@@ -72,6 +72,10 @@ def _font(rng):
             anchors += [{"n": "_top", "x": 0, "y": 500 * P}, {"n": "top", "x": 0, "y": 700 * P}]
         if n.endswith("-ar"):
             anchors += [{"n": "entry", "x": 400 * P, "y": 0}, {"n": "exit", "x": 0, "y": 0}]
+        if n == "f_i" and rng.random() < 0.6:
+            anchors.append({"n": "caret_1", "x": 250 * P, "y": 0})
+            if rng.random() < 0.3:
+                anchors.append({"n": "vcaret_1", "x": 0, "y": 300 * P})
         glyphs[n] = {"cs": [layout_gen.box()], "comps": [], "anchors": anchors, "w": (0 if n == "acutecomb" else 500) * P, "h": 0,
                      "u": [cp] if cp else []}
     return {"glyphs": glyphs, "order": [n for n, _ in names], "glyphNames": [n for n, _ in names],
@@ -99,8 +103,11 @@ def cases(tier, seed):
             parts.append("lookup userLookup {\n    pos a a 5;\n} userLookup;")
         for t in tags:
             parts.append(_block(rng, t))
-        if rng.random() < 0.2:
-            parts.append("table GDEF {\n    GlyphClassDef [a A], [f_i], [acutecomb], ;\n} GDEF;")
+        if rng.random() < 0.35:
+            gd = rng.choice([["GlyphClassDef [a A], [f_i], [acutecomb], ;"], ["LigatureCaretByPos f_i 240;"], ["LigatureCaretByIndex f_i 2;"],
+                             ["GlyphClassDef [a A], [f_i], [acutecomb], ;", "LigatureCaretByIndex f_i 1;"],
+                             ["GlyphClassDef [a A], [f_i], [acutecomb], ;", "LigatureCaretByPos f_i 260;"], ["Attach a 1;"]])
+            parts.append("table GDEF {\n    %s\n} GDEF;" % "\n    ".join(gd))
         if rng.random() < 0.2:
             parts.insert(rng.randint(0, len(parts)), "# top-level comment")
         ufo["fea"] = "\n\n".join(parts) + "\n"
